@@ -197,128 +197,133 @@ def simple (t : TT) (text rest : Str) : Match :=
   | some u => { type := t, value := .str u, text := text, rest := rest, normFrom := some text }
   | none => { type := t, value := .str text, text := text, rest := rest }
 
+/-- NUMBER token from a matched lexeme (`float(...)` / `int(...)`). -/
+def numberMatch (env : Env) (t r1 : Str) : Except Exc (Option Match) :=
+  if t.contains '.' || t.contains 'e' || t.contains 'E' then
+    .ok (some { type := .number, value := .float (env.floatRepr t), text := t, rest := r1, raw := some t })
+  else
+    match intOfLexeme env t with
+    | .ok i => .ok (some { type := .number, value := .int i, text := t, rest := r1, raw := some t })
+    | .error e => .error e
+
+/-- GRAMMAR_SENTINEL (only tried at position 0). -/
+def matchSentinel (env : Env) (s : Str) : Option Match :=
+  match lit "OCTAVE::".toList s with
+  | some r0 => (sentinelVersion env r0).map fun (v, r1) =>
+      { type := .grammarSentinel, value := .str v, text := "OCTAVE::".toList ++ v, rest := r1 }
+  | none => none
+
+/-- patterns that start with a digit: VERSION ×3, then NUMBER. -/
+def matchDigit (env : Env) (s : Str) : Except Exc (Option Match) :=
+  match version3 env s with
+  | some (v, r1) => .ok (some { type := .version, value := .str v, text := v, rest := r1 })
+  | none =>
+  match version2pre env s with
+  | some (v, r1) => .ok (some { type := .version, value := .str v, text := v, rest := r1 })
+  | none =>
+  match version2build env s with
+  | some (v, r1) => .ok (some { type := .version, value := .str v, text := v, rest := r1 })
+  | none =>
+  match number env s with
+  | some (t, r1) => numberMatch env t r1
+  | none => .ok none
+
+/-- patterns that start with `=`: ===END===, ===NAME===. -/
+def matchEq (s : Str) : Option Match :=
+  match lit "===END===".toList s with
+  | some r1 => some { type := .envelopeEnd, value := .str "END".toList, text := "===END===".toList, rest := r1 }
+  | none =>
+    match envelopeStart s with
+    | some (name, r1) => some { type := .envelopeStart, value := .str name, text := "===".toList ++ name ++ "===".toList, rest := r1 }
+    | none => none
+
+/-- patterns that start with `-`: ---, ->, negative NUMBER. -/
+def matchDash (env : Env) (s : Str) : Except Exc (Option Match) :=
+  match lit "---".toList s with
+  | some r1 => .ok (some (simple .separator "---".toList r1))
+  | none =>
+  match lit "->".toList s with
+  | some r1 => .ok (some (simple .flow "->".toList r1))
+  | none =>
+  match number env s with
+  | some (t, r1) => numberMatch env t r1
+  | none => .ok none
+
+/-- patterns that start with a double quote: triple-quoted string, then string. `r` is the text after the first quote. -/
+def matchQuote (s r : Str) : Option Match :=
+  let triple : Option Match :=
+    match lit "\"\"\"".toList s with
+    | some r0 => (tripleBody r0).map fun (body, r1) =>
+        { type := .string, value := .str (unescape body), text := "\"\"\"".toList ++ body ++ "\"\"\"".toList,
+          rest := r1, normFrom := some "\"\"\"".toList }
+    | none => none
+  match triple with
+  | some m => some m
+  | none =>
+    match stringBody r with
+    | some (body, r1) => some { type := .string, value := .str (unescape body), text := '"' :: body ++ ['"'], rest := r1 }
+    | none => none
+
+/-- the word-boundary keyword patterns. -/
+def matchKeyword (env : Env) (prev : Option Char) (c : Char) (s : Str) : Option Match :=
+  if c == 'v' then (kw env prev "vs".toList s).map fun r1 => simple .tension "vs".toList r1
+  else if c == 't' then (kw env prev "true".toList s).map fun r1 => { type := .boolean, value := .bool true, text := "true".toList, rest := r1 }
+  else if c == 'f' then (kw env prev "false".toList s).map fun r1 => { type := .boolean, value := .bool false, text := "false".toList, rest := r1 }
+  else if c == 'n' then (kw env prev "null".toList s).map fun r1 => { type := .null, value := .none, text := "null".toList, rest := r1 }
+  else none
+
+/-- token type of the one-character operator / punctuation patterns. -/
+def singleCharType (c : Char) : Option TT :=
+  if c == '→' then some .flow
+  else if c == '⊕' then some .synthesis
+  else if c == '⧺' then some .concat
+  else if c == '~' then some .concat
+  else if c == '@' then some .at_
+  else if c == '⇌' then some .tension
+  else if c == '∨' then some .alternative
+  else if c == '|' then some .alternative
+  else if c == '∧' then some .constraint
+  else if c == '&' then some .constraint
+  else if c == '§' then some .section
+  else if c == '[' then some .listStart
+  else if c == ']' then some .listEnd
+  else if c == ',' then some .comma
+  else if c == '#' then some .section
+  else none
+
+/-- comment, `::` / `:`, `<->`, variable, newline, and the one-character operator / punctuation patterns. -/
+def matchPunct (env : Env) (c : Char) (r : Str) (s : Str) : Option Match :=
+  if c == '/' then
+    match r with
+    | '/' :: r1 =>
+      some { type := .comment, value := .str (env.strip (takeWhile (· != '\n') r1).1), text := '/' :: '/' :: (takeWhile (· != '\n') r1).1,
+             rest := (takeWhile (· != '\n') r1).2 }
+    | _ => none
+  else if c == ':' then
+    match r with
+    | ':' :: r1 => some (simple .assign "::".toList r1)
+    | _ => some (simple .block ":".toList r)
+  else if c == '<' then (lit "<->".toList s).map fun r1 => simple .tension "<->".toList r1
+  else if c == '$' then (many1 isVarChar r).map fun (b, r1) => { type := .variable, value := .str ('$' :: b), text := '$' :: b, rest := r1 }
+  else if c == '\n' then some { type := .newline, value := .str ['\n'], text := ['\n'], rest := r }
+  else (singleCharType c).map fun t => simple t [c] r
+
 /-- the `for pattern, token_type in compiled_patterns` loop: first matching pattern at `s`.
-Patterns are dispatched on their first character; within a group the source order is kept. -/
+Patterns are dispatched on their first character (the first-character sets of different groups are disjoint);
+within a group the source order is kept. -/
 def matchPattern (env : Env) (atZero : Bool) (prev : Option Char) (s : Str) : Except Exc (Option Match) :=
   match s with
   | [] => .ok none
   | c :: r =>
-    -- GRAMMAR_SENTINEL (only at position 0)
-    let sentinel : Option Match :=
-      if atZero then
-        match lit "OCTAVE::".toList s with
-        | some r0 => (sentinelVersion env r0).map fun (v, r1) =>
-            { type := .grammarSentinel, value := .str v, text := "OCTAVE::".toList ++ v, rest := r1 }
-        | none => none
-      else none
-    match sentinel with
+    match (if atZero then matchSentinel env s else none) with
     | some m => .ok (some m)
     | none =>
-    if env.isDigit c then
-      -- VERSION ×3, then NUMBER
-      match version3 env s with
-      | some (v, r1) => .ok (some { type := .version, value := .str v, text := v, rest := r1 })
-      | none =>
-      match version2pre env s with
-      | some (v, r1) => .ok (some { type := .version, value := .str v, text := v, rest := r1 })
-      | none =>
-      match version2build env s with
-      | some (v, r1) => .ok (some { type := .version, value := .str v, text := v, rest := r1 })
-      | none =>
-      match number env s with
-      | some (t, r1) =>
-        if t.contains '.' || t.contains 'e' || t.contains 'E' then
-          .ok (some { type := .number, value := .float (env.floatRepr t), text := t, rest := r1, raw := some t })
-        else do
-          let i ← intOfLexeme env t
-          .ok (some { type := .number, value := .int i, text := t, rest := r1, raw := some t })
-      | none => .ok none
-    else if c == '=' then
-      match lit "===END===".toList s with
-      | some r1 => .ok (some { type := .envelopeEnd, value := .str "END".toList, text := "===END===".toList, rest := r1 })
-      | none =>
-        match envelopeStart s with
-        | some (name, r1) => .ok (some { type := .envelopeStart, value := .str name, text := "===".toList ++ name ++ "===".toList, rest := r1 })
-        | none => .ok none
-    else if c == '-' then
-      match lit "---".toList s with
-      | some r1 => .ok (some (simple .separator "---".toList r1))
-      | none =>
-      match lit "->".toList s with
-      | some r1 => .ok (some (simple .flow "->".toList r1))
-      | none =>
-      match number env s with
-      | some (t, r1) =>
-        if t.contains '.' || t.contains 'e' || t.contains 'E' then
-          .ok (some { type := .number, value := .float (env.floatRepr t), text := t, rest := r1, raw := some t })
-        else do
-          let i ← intOfLexeme env t
-          .ok (some { type := .number, value := .int i, text := t, rest := r1, raw := some t })
-      | none => .ok none
-    else if c == '/' then
-      match r with
-      | '/' :: r1 =>
-        let (body, r2) := takeWhile (· != '\n') r1
-        .ok (some { type := .comment, value := .str (env.strip body), text := '/' :: '/' :: body, rest := r2 })
-      | _ => .ok none
-    else if c == ':' then
-      match r with
-      | ':' :: r1 => .ok (some (simple .assign "::".toList r1))
-      | _ => .ok (some (simple .block ":".toList r))
-    else if c == '→' then .ok (some (simple .flow [c] r))
-    else if c == '<' then
-      match lit "<->".toList s with
-      | some r1 => .ok (some (simple .tension "<->".toList r1))
-      | none => .ok none
-    else if c == '⊕' then .ok (some (simple .synthesis [c] r))
-    else if c == '⧺' then .ok (some (simple .concat [c] r))
-    else if c == '~' then .ok (some (simple .concat [c] r))
-    else if c == '@' then .ok (some (simple .at_ [c] r))
-    else if c == '⇌' then .ok (some (simple .tension [c] r))
-    else if c == 'v' then
-      match kw env prev "vs".toList s with
-      | some r1 => .ok (some (simple .tension "vs".toList r1))
-      | none => .ok none
-    else if c == '∨' then .ok (some (simple .alternative [c] r))
-    else if c == '|' then .ok (some (simple .alternative [c] r))
-    else if c == '∧' then .ok (some (simple .constraint [c] r))
-    else if c == '&' then .ok (some (simple .constraint [c] r))
-    else if c == '§' then .ok (some (simple .section [c] r))
-    else if c == '[' then .ok (some (simple .listStart [c] r))
-    else if c == ']' then .ok (some (simple .listEnd [c] r))
-    else if c == ',' then .ok (some (simple .comma [c] r))
-    else if c == '"' then
-      let triple : Option Match :=
-        match lit "\"\"\"".toList s with
-        | some r0 => (tripleBody r0).map fun (body, r1) =>
-            { type := .string, value := .str (unescape body), text := "\"\"\"".toList ++ body ++ "\"\"\"".toList,
-              rest := r1, normFrom := some "\"\"\"".toList }
-        | none => none
-      match triple with
-      | some m => .ok (some m)
-      | none =>
-        match stringBody r with
-        | some (body, r1) => .ok (some { type := .string, value := .str (unescape body), text := '"' :: body ++ ['"'], rest := r1 })
-        | none => .ok none
-    else if c == 't' then
-      match kw env prev "true".toList s with
-      | some r1 => .ok (some { type := .boolean, value := .bool true, text := "true".toList, rest := r1 })
-      | none => .ok none
-    else if c == 'f' then
-      match kw env prev "false".toList s with
-      | some r1 => .ok (some { type := .boolean, value := .bool false, text := "false".toList, rest := r1 })
-      | none => .ok none
-    else if c == 'n' then
-      match kw env prev "null".toList s with
-      | some r1 => .ok (some { type := .null, value := .none, text := "null".toList, rest := r1 })
-      | none => .ok none
-    else if c == '#' then .ok (some (simple .section [c] r))
-    else if c == '$' then
-      match many1 isVarChar r with
-      | some (b, r1) => .ok (some { type := .variable, value := .str ('$' :: b), text := '$' :: b, rest := r1 })
-      | none => .ok none
-    else if c == '\n' then .ok (some { type := .newline, value := .str ['\n'], text := ['\n'], rest := r })
-    else .ok none
+    if env.isDigit c then matchDigit env s
+    else if c == '=' then .ok (matchEq s)
+    else if c == '-' then matchDash env s
+    else if c == '"' then .ok (matchQuote s r)
+    else if c == 'v' || c == 't' || c == 'f' || c == 'n' then .ok (matchKeyword env prev c s)
+    else .ok (matchPunct env c r s)
 
 /-! ### Main loop -/
 
